@@ -52,7 +52,8 @@ class WorldC01(World):
     WALL = {'quick': 50, 'thorough': 560}
     STATE_CHANGING = ('mkmode', 'mkspecies', 'edit', 'swap')
     STATE_RULE = 'per species: (mode classes in its five slots, modes shared with another species, edits since construction bucket)'
-    PROBES = ('edit-imaginary-substitute', 'edit-wavenumbers', 'edit-wavenumbers-in-place', 'integer-wavenumbers', 'edit-spin', 'edit-qrrho-parameter', 'mode-shared-by-two-species', 'constant-mode-additivity-only', 'lsr-electronic-mode', 'textbook-harmonic-q-both-zeros', 'option-through-species', 'rot-temperatures-as-array',
+    PROBES = ('edit-imaginary-substitute', 'edit-wavenumbers', 'edit-wavenumbers-in-place', 'integer-wavenumbers', 'edit-spin', 'edit-qrrho-parameter', 'mode-shared-by-two-species', 'constant-mode-additivity-only', 'lsr-electronic-mode', 'textbook-harmonic-q-both-zeros', 'option-through-species', 'rot-temperatures-as-array', 'conditions-in-a-reused-dictionary',
+              'mutator-raised-part-way',
               'swap-mode', 'imaginary-mode-present', 'monatomic-rotor', 'linear-rotor', 'trans-1-or-2-dof', 'point-group-label',
               'debye-mode', 'einstein-mode', 'qrrho-mode', 'low-T-regime', 'high-T-regime', 'verbose-sum', 'pressure-shift',
               'textbook-harmonic', 'textbook-trans', 'textbook-rotor', 'textbook-elec', 'textbook-einstein', 'textbook-debye-Cv', 'textbook-qrrho', 'geometry-rigid-motion')
@@ -71,7 +72,7 @@ class WorldC01(World):
     def gen_swarm(self, rng, tier):
         return {'n_clients': rng.randint(1, 3), 'n_species': rng.randint(1, 4), 'share': rng.random() < 0.6,
                 'w_edit': rng.choice([1, 2, 3]), 'w_eval': rng.choice([1, 2]), 'w_swap': rng.choice([0, 1]),
-                'geometry': rng.random() < 0.15}
+                'geometry': rng.random() < 0.15, 'cond_dict': rng.random() < 0.3, 'w_bad': rng.choice([0.0, 0.0, 0.15])}
 
     def n_steps(self, rng, swarm):
         return rng.randint(8, 30)
@@ -99,6 +100,7 @@ class WorldC01(World):
         self.sp = {}       # id -> real StatMech
         self.slots = {}    # id -> {slot: mode id}
         self.n_edits = 0
+        self.cdict = {}    # species id -> the caller's reused conditions dictionary
 
     def _gen_params(self, rng, kind):
         u = rng.uniform
@@ -178,6 +180,9 @@ class WorldC01(World):
                     # geometry and rotational temperatures only make sense together
                     return {'c': c, 'op': 'edit', 'args': {'mode': mid, 'set': {'geometry': newp['geometry'],
                                                                                  'rot_temperatures': newp['rot_temperatures']}}}
+                if k == 'QRRHOVib' and rng.random() < sw.get('w_bad', 0.0):
+                    # an assignment the mode rejects (None), followed by putting the old value back
+                    return {'c': c, 'op': 'edit', 'args': {'mode': mid, 'set': {}, 'rejected': rng.choice(['v0', 'alpha', 'Bav'])}}
                 if attr == 'vib_wavenumbers' and rng.random() < 0.4:
                     n = len(self.mp[mid]['vib_wavenumbers'])
                     how = rng.choice([{'how': 'scale', 'f': rng.choice([0.96, 0.9614, 1.05])},
@@ -255,6 +260,15 @@ class WorldC01(World):
             for attr, val in a['set'].items():
                 if attr not in PARAMS[k]:
                     raise Skip()
+            if a.get('rejected'):
+                if k != 'QRRHOVib' or a['rejected'] not in ('v0', 'alpha', 'Bav'):
+                    raise Skip()
+                try:
+                    setattr(m, a['rejected'], None)
+                except Exception:
+                    ctx.probe('mutator-raised-part-way')
+                # the caller notices and restores the value the mode had
+                self.real(setattr, m, a['rejected'], self.mp[a['mode']][a['rejected']], _what='assigning %s back' % a['rejected'])
             if a.get('inplace'):
                 # "model.vib_wavenumbers *= 0.96" and "w = model.vib_wavenumbers; w[i] = v; model.vib_wavenumbers = w":
                 # the setter receives the object the getter returned, already changed
@@ -320,11 +334,28 @@ class WorldC01(World):
         return out
 
     # ------------------------------------------------------------------ oracle
-    def _getters(self, obj, T, P, what):
+    def _getters(self, obj, T, P, what, sid=None):
         vals = {}
         for q in QS:
-            vals[q] = float(self.real(_call, getattr(obj, 'get_' + q), T=T, P=P, _what='%s get_%s(T=%r, P=%r)' % (what, q, T, P)))
+            if sid is not None and self.ctx.swarm.get('cond_dict'):
+                vals[q] = self._via_dict(sid, obj, q, T, P, what)
+            else:
+                vals[q] = float(self.real(_call, getattr(obj, 'get_' + q), T=T, P=P,
+                                          _what='%s get_%s(T=%r, P=%r)' % (what, q, T, P)))
         return vals
+
+    def _via_dict(self, sid, obj, q, T, P, what):
+        """The caller keeps ONE conditions dictionary per species - temperature on top, the species' own pressure in its
+        '<name>_kwargs' block, a block for somebody else next to it - and only updates the numbers between calls."""
+        name = obj.name
+        cond = self.cdict.setdefault(sid, {'T': None, name + '_kwargs': {'P': None}, 'ZZ9_kwargs': {'P': 0.2}})
+        cond['T'] = T
+        cond[name + '_kwargs']['P'] = P
+        self.ctx.probe('conditions-in-a-reused-dictionary')
+        v = float(self.real(getattr(obj, 'get_' + q), _what='%s get_%s(**reused conditions %r)' % (what, q, cond), **cond))
+        if cond != {'T': T, name + '_kwargs': {'P': P}, 'ZZ9_kwargs': {'P': 0.2}}:
+            raise Violation('conditions-unmodified', '%s: get_%s changed the caller\'s conditions dictionary to %r' % (what, q, cond))
+        return v
 
     def _deriv(self, f, T):
         def d(h):
@@ -338,7 +369,7 @@ class WorldC01(World):
         sl = self.slots[sid]
         kinds = {slot: self.mk[mid] for slot, mid in sl.items()}
         what = 'species %d %s' % (sid, sorted(kinds.items()))
-        v = self._getters(sp, T, P, what)
+        v = self._getters(sp, T, P, what, sid=sid)
         # (c) coherence: the edited object equals a freshly built one with the same public parameters
         fresh = self._species_from('fresh', sl, fresh=True)
         vf = self._getters(fresh, T, P, 'fresh twin of ' + what)
@@ -389,9 +420,14 @@ class WorldC01(World):
         if kinds['trans'] == 'FreeTrans' and self.mp[sl['trans']]['n_degrees'] < 3:
             ctx.probe('trans-1-or-2-dof')
         # derivatives
-        gU = lambda t: float(_call(sp.get_UoRT, T=t, P=P)) * t
-        gH = lambda t: float(_call(sp.get_HoRT, T=t, P=P)) * t
-        gS = lambda t: float(_call(sp.get_SoR, T=t, P=P))
+        if self.ctx.swarm.get('cond_dict'):
+            gU = lambda t: self._via_dict(sid, sp, 'UoRT', t, P, what) * t
+            gH = lambda t: self._via_dict(sid, sp, 'HoRT', t, P, what) * t
+            gS = lambda t: self._via_dict(sid, sp, 'SoR', t, P, what)
+        else:
+            gU = lambda t: float(_call(sp.get_UoRT, T=t, P=P)) * t
+            gH = lambda t: float(_call(sp.get_HoRT, T=t, P=P)) * t
+            gS = lambda t: float(_call(sp.get_SoR, T=t, P=P))
         for nm, f, wantv in (('Cv=dU/dT', gU, v['CvoR']), ('Cp=dH/dT', gH, v['CpoR']), ('dS/dT=Cp/T', gS, v['CpoR'] / T)):
             if nm == 'dS/dT=Cp/T' and kinds['vib'] == 'DebyeVib' and not ctx.allow('C01-debye-entropy'):
                 continue
